@@ -11,6 +11,7 @@ import json
 
 import common as C
 import proofs as P
+import tracemc
 
 GEN_CFG = "SPECIFICATION GenSpec\nPOSTCONDITION GenPost\nCHECK_DEADLOCK FALSE\n"
 VAL_CFG = "SPECIFICATION Spec\nINVARIANT Publish\nPOSTCONDITION Post\nCHECK_DEADLOCK FALSE\n"
@@ -70,6 +71,13 @@ def run(rep):
                     print('MODEL-DRIFT C06:', json.dumps(f)[:300])
                 continue
             rep.violation({'kind': 'freshness', 'clause': f['clause'], 'op': f['op']['op'], 'event': f['event']}, f)
+    # every witness STEP of full proof traces, judged with the extracted rule table (TraceMC.tla): a witness-type rule
+    # (ticking quantifier rule, possibility-type modal rule, Serial) must bring exactly one constant / world that occurs
+    # nowhere on the branch, however it obtained it; a universal-type rule must not make one up
+    tjobs = [j for j in P.corpus_jobs(rep.seed + 2, 30 if thorough else 6, 'c06t', 'full', orders=2, max_steps=100, systematic=thorough)
+             if any(P.LOGIC_META[j['logic']])]
+    tracemc.validate(rep, P.read_records(P.run_jobs(tjobs, 'c06t')), d, 'c06',
+                     only=lambda cl: cl.startswith('Witness') or cl.startswith('UniversalStepMakesUp'), kind='freshness')
     if total != nh + len(wit):
         raise C.MachineryError(f'C06: expected {nh + len(wit)} records, validated {total}')
     rep.cov['model_drift'] = drift
